@@ -5,8 +5,11 @@ go 1.26.8
 require (
 	github.com/golang/protobuf v1.4.3
 	github.com/hashicorp/memberlist v0.2.2
+	github.com/vx-labs/commitlog v1.2.4
 	github.com/vx-labs/mqtt-protocol v5.1.1+incompatible
 	github.com/vx-labs/wasp/v4 v4.0.0
+	go.uber.org/zap v1.16.0
+	google.golang.org/grpc v1.33.2
 )
 
 require (
@@ -37,18 +40,15 @@ require (
 	github.com/sean-/seed v0.0.0-20170313163322-e2103e2c3529 // indirect
 	github.com/tysontate/gommap v0.0.0-20190103205956-899e1273fb5c // indirect
 	github.com/vx-labs/cluster v1.7.10 // indirect
-	github.com/vx-labs/commitlog v1.2.4 // indirect
 	github.com/zond/gotomic v0.0.0-20160912093511-c442ca1e4aa6 // indirect
 	go.etcd.io/etcd v0.0.0-20200716221620-18dfb9cca345 // indirect
 	go.uber.org/atomic v1.6.0 // indirect
 	go.uber.org/multierr v1.5.0 // indirect
-	go.uber.org/zap v1.16.0 // indirect
 	golang.org/x/crypto v0.0.0-20200622213623-75b288015ac9 // indirect
 	golang.org/x/net v0.0.0-20200625001655-4c5254603344 // indirect
 	golang.org/x/sys v0.0.0-20201015000850-e3ed0017c211 // indirect
 	golang.org/x/text v0.3.2 // indirect
 	google.golang.org/genproto v0.0.0-20200526211855-cb27e3aa2013 // indirect
-	google.golang.org/grpc v1.33.2 // indirect
 	google.golang.org/protobuf v1.25.0 // indirect
 )
 
